@@ -1,1 +1,387 @@
-fn main() { eprintln!("not built yet"); std::process::exit(2); }
+//! C20 — the command-line tool's exit status and outputs tell the truth.
+//!
+//! Two exhaustively enumerated spaces, every case = real `warcraft-rs` processes ($VERIF_CLI):
+//!  * `roundtrip` (clause i): file set x create options x extract options; extracted files are
+//!    compared bit for bit with the inputs, `list` / `info` / `tree` output with the library's view.
+//!  * `subcmd` (clause ii): every sub-command template of every format family x every seed of
+//!    that family x every damage class; judged only by the sound, uniform rules of DESIGN.md C20.
+mod oracle;
+mod run;
+mod seeds;
+mod subcmd;
+
+use oracle::*;
+use run::*;
+use serde_json::{json, Value};
+use std::path::{Path, PathBuf};
+use vcore::*;
+
+// ====================================================================== space (i): round trip
+
+pub struct FileSet {
+    pub name: &'static str,
+    pub files: Vec<(String, Vec<u8>)>,
+}
+
+fn filesets(tier: Tier) -> Vec<FileSet> {
+    let c = |t: &str, n: usize, salt: u64| gen::content(t, n, 4096, salt);
+    let mut v = vec![
+        FileSet { name: "one", files: vec![("a.txt".into(), c("period251", 40, 1))] },
+        FileSet { name: "three", files: vec![("a.txt".into(), c("period251", 40, 1)), ("table.dbc".into(), c("sparse", 700, 2)), ("Temp.blp".into(), c("period2", 5000, 3))] },
+        FileSet {
+            name: "twelve",
+            files: [1usize, 2, 3, 100, 511, 512, 513, 4095, 4096, 4097, 10000, 20000]
+                .iter()
+                .enumerate()
+                .map(|(i, n)| (format!("f{:02}_{}.bin", i, n), c(gen::TEXTURES[i % gen::TEXTURES.len()], *n, i as u64)))
+                .collect(),
+        },
+        FileSet { name: "with-empty-file", files: vec![("empty.dat".into(), vec![]), ("x.txt".into(), c("constant", 10, 4))] },
+        FileSet { name: "with-70KiB-file", files: vec![("big.bin".into(), c("half", 70 * 1024, 5)), ("small.txt".into(), c("period251", 5, 6))] },
+        FileSet {
+            name: "names-with-spaces",
+            files: vec![("my file.txt".into(), c("period251", 33, 7)), ("a  b   c.dat".into(), c("sparse", 300, 8)), ("Program Files (x86) readme.TXT".into(), c("period2", 1000, 9))],
+        },
+    ];
+    if tier == Tier::Thorough {
+        v.push(FileSet { name: "forty", files: (0..40).map(|i| (format!("n{:03}.dat", i), c(gen::TEXTURES[i % gen::TEXTURES.len()], 17 * i + (i % 3), 100 + i as u64))).collect() });
+        v.push(FileSet {
+            name: "sector-boundaries-and-300KiB-incompressible",
+            files: [16383usize, 16384, 16385, 32768, 300 * 1024].iter().enumerate().map(|(i, n)| (format!("s{}.raw", n), c(if i == 4 { "incompressible" } else { "half" }, *n, 200 + i as u64))).collect(),
+        });
+        v.push(FileSet {
+            name: "case-dots-and-non-ascii-names",
+            files: vec![
+                ("UPPER.TXT".into(), c("period251", 20, 11)),
+                ("MiXed.Case.Name".into(), c("sparse", 200, 12)),
+                ("noext".into(), c("period2", 64, 13)),
+                ("dots..in...name.x".into(), c("constant", 99, 14)),
+                ("tilde~and-dash_underscore.bin".into(), c("half", 5000, 15)),
+                ("\u{fc}n\u{ef}c\u{f6}d\u{e9}.txt".into(), c("period251", 77, 16)),
+            ],
+        });
+        v.push(FileSet { name: "backslash-in-name", files: vec![("dir\\inner.txt".into(), c("period251", 50, 17)), ("plain.txt".into(), c("sparse", 150, 18))] });
+    }
+    v
+}
+
+const VERSIONS: [&str; 4] = ["v1", "v2", "v3", "v4"];
+const COMPRESSIONS: [&str; 4] = ["none", "zlib", "bzip2", "lzma"];
+const SELECTIONS: [&str; 3] = ["all", "explicit-names", "explicit-names-with-one-missing"];
+const MISSING: &str = "no_such_member.bin";
+
+struct RoundTrip {
+    sets: Vec<FileSet>,
+    threads: Vec<Option<u32>>,
+    radices: Vec<u64>,
+}
+impl RoundTrip {
+    fn new(tier: Tier) -> Self {
+        let sets = filesets(tier);
+        let threads = tier.pick(vec![Some(1), Some(2), Some(8)], vec![Some(1), Some(2), Some(8), None]);
+        // simplest first: selection, skip, listfile, compression, version, file set
+        let radices = vec![3, 2, 2, 4, 4, sets.len() as u64];
+        RoundTrip { sets, threads, radices }
+    }
+}
+
+/// where an extracted member may legitimately land (flat or with its directory part)
+fn landing_places(out: &Path, member: &str) -> Vec<PathBuf> {
+    let sys = member.replace('\\', "/");
+    let base = sys.rsplit('/').next().unwrap_or(&sys).to_string();
+    let mut v = vec![out.join(&sys), out.join(&base)];
+    if member.contains('\\') {
+        v.push(out.join(member));
+    }
+    v.dedup();
+    v
+}
+
+fn first_line_value<'a>(text: &'a str, key: &str) -> Option<&'a str> {
+    for l in text.lines() {
+        if let Some(p) = l.find(key) {
+            return Some(l[p + key.len()..].trim());
+        }
+    }
+    None
+}
+
+impl Space for RoundTrip {
+    fn len(&self) -> u64 {
+        gen::product(&self.radices)
+    }
+    fn describe(&self, i: u64) -> Value {
+        let d = gen::mixed_radix(i, &self.radices);
+        let fs = &self.sets[d[5] as usize];
+        json!({
+            "space": "roundtrip",
+            "fileset": fs.name,
+            "files": fs.files.iter().map(|(n, b)| format!("{n}:{}", b.len())).collect::<Vec<_>>(),
+            "version": VERSIONS[d[4] as usize],
+            "compression": COMPRESSIONS[d[3] as usize],
+            "with_listfile": d[2] == 1,
+            "skip_errors": d[1] == 1,
+            "selection": SELECTIONS[d[0] as usize],
+            "inner": format!("threads {:?} x preserve-paths {{off,on}}", self.threads),
+        })
+    }
+    fn case_timeout(&self) -> u64 {
+        300
+    }
+    fn run(&self, i: u64) -> CaseResult {
+        let d = gen::mixed_radix(i, &self.radices);
+        let (sel, skip, lf, comp, ver) = (d[0] as usize, d[1] == 1, d[2] == 1, COMPRESSIONS[d[3] as usize], VERSIONS[d[4] as usize]);
+        let fs = &self.sets[d[5] as usize];
+        let mut r = CaseResult::new();
+        r.key = format!("rt{i}");
+        let scratch = Scratch::new(&scratch_tag());
+        let rn = Runner::new(&scratch.0, 60);
+        let indir = rn.cwd.join("in");
+        std::fs::create_dir_all(&indir).unwrap();
+        for (n, b) in &fs.files {
+            std::fs::write(indir.join(n), b).expect("write input");
+        }
+        // ---- create
+        let mut args: Vec<String> = vec!["mpq".into(), "create".into(), "a.mpq".into()];
+        for (n, _) in &fs.files {
+            args.push("--add".into());
+            args.push(format!("in/{n}"));
+        }
+        args.extend(["--version".to_string(), ver.into(), "--compression".into(), comp.into()]);
+        if lf {
+            args.push("--with-listfile".into());
+        }
+        let o = rn.run(&args);
+        r.count("processes", 1);
+        let apath = rn.cwd.join("a.mpq");
+        if !o.ok() {
+            r.err_return = true;
+            r.outcome = format!("create:{}", o.class());
+            r.count("create_refused", 1);
+            return r;
+        }
+        let view = match mpq_view(&apath, false) {
+            Ok(v) => v,
+            Err(e) => {
+                r.viol("mpq create: exit 0 but the archive is missing or the library cannot open it", format!("{e}; {}", o.brief()));
+                r.nontrivial = true;
+                r.outcome = "create-bad".into();
+                return r;
+            }
+        };
+        r.nontrivial = true;
+        // ---- list / info / tree agree with the library's view (once per archive configuration)
+        if sel == 0 && !skip {
+            let o = rn.run(&["mpq".into(), "list".into(), "a.mpq".into()]);
+            r.count("processes", 1);
+            if o.ok() {
+                let mut got: Vec<String> = o.stdout.lines().map(|l| l.to_string()).filter(|l| !l.is_empty()).collect();
+                got.sort();
+                let mut want = view.names.clone();
+                want.sort();
+                if got != want {
+                    r.viol("mpq list: printed names differ from the library's list()", format!("printed {:?} library {:?}", got, want));
+                }
+                r.count("list_compared", 1);
+            } else {
+                r.count("list_refused", 1);
+            }
+            let o = rn.run(&["mpq".into(), "info".into(), "a.mpq".into()]);
+            r.count("processes", 1);
+            if o.ok() {
+                let fv = first_line_value(&o.stdout, "Format version:").unwrap_or("<absent>").to_string();
+                let fc = first_line_value(&o.stdout, "Number of files:").unwrap_or("<absent>").to_string();
+                if fv != view.version {
+                    r.viol("mpq info: format version differs from the library's get_info()", format!("printed {fv:?} library {:?}", view.version));
+                }
+                if fc != view.file_count.to_string() {
+                    r.viol("mpq info: number of files differs from the library's get_info()", format!("printed {fc:?} library {}", view.file_count));
+                }
+                r.count("info_compared", 1);
+            } else {
+                r.count("info_refused", 1);
+            }
+            let o = rn.run(&["mpq".into(), "tree".into(), "a.mpq".into(), "--no-color".into()]);
+            r.count("processes", 1);
+            if o.ok() {
+                let ss = first_line_value(&o.stdout, "sector_size:").unwrap_or("<absent>").to_string();
+                if ss != view.sector_size.to_string() {
+                    r.viol("mpq tree: sector size differs from the library's get_info()", format!("printed {ss:?} library {}", view.sector_size));
+                }
+                r.count("tree_compared", 1);
+            } else {
+                r.count("tree_refused", 1);
+            }
+        }
+        // ---- extract
+        let explicit: Vec<&(String, Vec<u8>)> = fs.files.iter().step_by(2).collect();
+        let mut oc = String::new();
+        for (ti, t) in self.threads.iter().enumerate() {
+            for preserve in [false, true] {
+                let od = format!("o{ti}{}", preserve as u8);
+                let mut args: Vec<String> = vec!["mpq".into(), "extract".into(), "a.mpq".into(), "-o".into(), od.clone()];
+                let mut expected: Vec<&(String, Vec<u8>)> = vec![];
+                match sel {
+                    0 => {
+                        // judged for the members the library itself can name
+                        expected = fs.files.iter().filter(|(n, _)| view.names.iter().any(|x| x == n)).collect();
+                    }
+                    _ => {
+                        for (k, f) in explicit.iter().enumerate() {
+                            if sel == 2 && k == explicit.len() / 2 {
+                                args.push(MISSING.into());
+                            }
+                            args.push(f.0.clone());
+                            expected.push(f);
+                        }
+                    }
+                }
+                if let Some(t) = t {
+                    args.push("--threads".into());
+                    args.push(t.to_string());
+                }
+                if preserve {
+                    args.push("-p".into());
+                }
+                if skip {
+                    args.push("--skip-errors".into());
+                }
+                let o = rn.run(&args);
+                r.count("processes", 1);
+                r.count("extractions", 1);
+                let ctx = format!("threads={t:?} preserve={preserve}");
+                if !oc.contains(o.class()) {
+                    oc.push_str(o.class());
+                }
+                if sel == 2 && !skip {
+                    if o.ok() {
+                        r.viol("mpq extract: exit 0 although an explicitly requested name is missing and --skip-errors is off", format!("{ctx}: {}", o.brief()));
+                    }
+                    continue;
+                }
+                if !o.ok() {
+                    r.err_return = true;
+                    r.count("extract_refused", 1);
+                    continue;
+                }
+                let outdir = rn.cwd.join(&od);
+                for (n, want) in expected {
+                    let got = landing_places(&outdir, n).into_iter().find_map(|p| std::fs::read(p).ok());
+                    match got {
+                        None => r.viol("mpq extract: exit 0 but a requested member is not in the output directory", format!("{ctx}: member {n:?}; {}", o.brief())),
+                        Some(g) if &g != want => r.viol(
+                            "mpq extract: exit 0 but an extracted file differs from the input that was archived",
+                            format!("{ctx}: member {n:?}: {} bytes extracted, {} bytes archived, first difference at {:?}", g.len(), want.len(), g.iter().zip(want.iter()).position(|(a, b)| a != b)),
+                        ),
+                        Some(_) => r.count("files_compared", 1),
+                    }
+                }
+                let _ = std::fs::remove_dir_all(&outdir);
+            }
+        }
+        r.outcome = format!("extract:{oc}");
+        r
+    }
+}
+
+// ====================================================================== driver
+
+fn build(name: &str, _arg: &str, tier: Tier) -> Box<dyn Space> {
+    match name {
+        "roundtrip" => Box::new(RoundTrip::new(tier)),
+        "subcmd" => Box::new(subcmd::SubCmd::new(tier)),
+        _ => panic!("space {name}"),
+    }
+}
+
+fn dump_seeds(dir: &str) {
+    let d = Path::new(dir);
+    std::fs::create_dir_all(d).unwrap();
+    for (_, ss) in subcmd::all_seeds(d) {
+        for s in ss {
+            let p = d.join(format!("{}.{}", s.name, s.ext));
+            std::fs::write(&p, &s.bytes).unwrap();
+            for (n, b) in &s.side {
+                std::fs::write(d.join(n), b).unwrap();
+            }
+            println!("{} {}", p.display(), s.bytes.len());
+        }
+    }
+}
+
+fn main() {
+    let args: Vec<String> = std::env::args().collect();
+    if args.len() >= 3 && args[1] == "--dump-seeds" {
+        dump_seeds(&args[2]);
+        return;
+    }
+    if args.len() >= 2 && args[1] == "--repro" {
+        subcmd::repro();
+        return;
+    }
+    if args.len() >= 4 && args[1] == "--survey" {
+        // c20 --survey <space> <quick|thorough> [substring of the case descriptor]
+        install_panic_hook();
+        let tier = if args[3] == "thorough" { Tier::Thorough } else { Tier::Quick };
+        let spb = build(&args[2], "", tier);
+        let sp: &dyn Space = &*spb;
+        let filt = args.get(4).cloned().unwrap_or_default();
+        let n = sp.len();
+        let next = std::sync::atomic::AtomicU64::new(0);
+        std::thread::scope(|s| {
+            for _ in 0..12 {
+                s.spawn(|| loop {
+                    let i = next.fetch_add(1, std::sync::atomic::Ordering::SeqCst);
+                    if i >= n {
+                        break;
+                    }
+                    let d = sp.describe(i).to_string();
+                    if !d.contains(&filt) {
+                        continue;
+                    }
+                    let r = sp.run(i);
+                    let v: Vec<String> = r.viols.iter().map(|v| format!("\n      VIOL {} :: {}", v.symptom, v.detail)).collect();
+                    println!("{i:6} {:40} err={} {d}{}", r.outcome, r.err_return, v.join(""));
+                });
+            }
+        });
+        return;
+    }
+    if args.len() >= 2 && args[1] == "--templates" {
+        subcmd::print_templates();
+        return;
+    }
+    let cli = cli_path();
+    if !cli.is_file() {
+        eprintln!("MACHINERY-ERROR: command-line tool not found at {} (set VERIF_CLI or build it: cd /repo && CARGO_TARGET_DIR=/verif/.target/repo-cli cargo build --offline -p warcraft-rs)", cli.display());
+        std::process::exit(2);
+    }
+    let Mode::Supervisor(mut c) = start("C20", "exploration", build) else { return };
+    let tier = c.tier;
+    c.rule = format!(
+        "space roundtrip (clause i): FULL PRODUCT file set ({nsets}: one / three / twelve sizes 1..20000 / with empty file / with 70 KiB file / names with spaces{more_sets}) x create --version {{v1..v4}} x --compression {{none,zlib,bzip2,lzma}} x --with-listfile {{off,on}} x extract selection {{all, explicit names (every other member), explicit names incl. one missing}} x --skip-errors {{off,on}}; inside each case --threads {threads} x --preserve-paths {{off,on}} (one `mpq extract` process each), and for selection=all/skip=off also `mpq list`, `mpq info`, `mpq tree` compared with the library's list()/get_info(). \
+         space subcmd (clause ii): EVERY (sub-command template x seed of its input family x damage class): {ntpl} templates over mpq/dbc/dbd/blp/m2(+skin,anim)/wmo/adt/wdt/wdl (every sub-command found with --help at every level, convert over all target versions), seeds from each crate's own writer/builder, damage classes {dmg}. \
+         Rules applied (and nothing else): R1 nonexistent/empty/garbage/truncated-below-8-bytes input => exit != 0; R2 validate/convert/export/extract/rebuild exit 0 => the library's own parse of the same bytes is Ok; R3 validate exit 0 => the library-level validation it wraps reports no error, and its own output carries no failure marker; R4 exit 0 with an output argument (and no 'No conversion needed'/'Preview mode'/'Dry run' statement) => output exists, is non-empty and the library parser for its format accepts it; R5 mpq extract / rebuild exit 0 (without --skip-errors) => every member the library lists is present and, where the library can read it, bit-identical. \
+         A case is non-trivial when the tool was actually started on the prepared input and ended with an exit status; distinct by (template, seed, damage) resp. by the axis tuple.",
+        nsets = filesets(tier).len(),
+        more_sets = tier.pick("", " / forty files / sector-boundary sizes + 300 KiB incompressible / case, dots and non-ASCII names / backslash in name"),
+        threads = tier.pick("{1,2,8}", "{1,2,8,default}"),
+        ntpl = subcmd::templates().len(),
+        dmg = subcmd::damage_names(tier).join(", "),
+    );
+    c.assume(format!("tool under test: {} (dev profile, built from /repo's working tree by ./check); every process runs with cwd, HOME, XDG_* and TMPDIR inside a vcore::Scratch directory, a 60 s timeout, RLIMIT_AS 8 GiB, MALLOC_ARENA_MAX=2", cli.display()));
+    c.assume("the library's view (list(), get_info(), parse, validate) is taken in-process from the same /repo tree and only on bytes the tool itself exited 0 on; library correctness is the subject of C01-C18, here only agreement between tool and library is judged");
+    c.assume("a non-zero exit where success was possible is a refusal (counted in error_returns), never a violation; timeouts and deaths by signal count as non-zero exits");
+    c.run_space("roundtrip", "");
+    c.run_space("subcmd", "");
+    let sets = filesets(tier);
+    c.extra_cov.insert(
+        "axes".into(),
+        json!({
+            "roundtrip": {"file_sets": sets.len(), "versions": 4, "compressions": 4, "listfile": 2, "selections": 3, "skip_errors": 2, "threads_inner": tier.pick(3, 4), "preserve_paths_inner": 2},
+            "subcmd": subcmd::axes(tier),
+        }),
+    );
+    c.extra_cov.insert("completed_deviation_bound".into(), json!("full product in both spaces"));
+    c.finish();
+}
